@@ -20,7 +20,7 @@
  */
 #include "vcommon.h"
 #include <xmp.h>
-#include "../../repo/src/common.h"
+#include "common.h"   /* /repo/src/common.h (private) via -I */
 
 #define MAXFRAMES 4096
 
